@@ -161,13 +161,15 @@ Local Open Scope Q_scope.
 Definition qf (f : float) : Q := match UnitsRun.Q_of_float f with Some q => q | None => 0 end.
 Definition finite (f : float) : bool := match UnitsRun.Q_of_float f with Some _ => true | None => false end.
 
-Definition eps_state : Q := 1 # 1000000000.        (* 1e-9: binary64 rounding of <= ~200 operations is < 1e-13 *)
-Definition eps_cost : Q := 1 # 100000000.          (* 1e-8 relative on a cost *)
-Definition eps_delta : Q := 1 # 10000000000000.    (* 1e-13 * |state|: rounding of the state difference a cost is computed from *)
-Definition eps_si : Q := 5 # 1000.                 (* table factors vs exact SI: <= 4 factors each within 0.1 % (C09) *)
-
-Definition close (e : Q) (obs expd scale : Q) : bool := Qle_bool (Qabs (obs - expd)) (e * scale).
-
+(* comparison bands of the judge (applied in fixed point, see [closeZ] and [judge_edge]):
+     state slots   |observed - expected| <= 1e-9 * (|observed| + |initial|)      binary64 rounding of the <= ~200 operations
+                                                                                 of a 30-edge route is < 1e-13 relative
+     exact SI      |observed increment - SI value| <= 0.5 % of the observed increment   (<= 5 table factors, each within
+                                                                                 0.1 % of its SI definition, property C09)
+     costs         |observed - expected| <= 1e-8 * (|total| + |access|) + 1e-13 * sensitivity * sum |state|
+                   (the implementation computes a cost from the DIFFERENCE of two accumulated float states)
+   A violation of the property moves a value by far more: a delay in the wrong unit by a factor >= 60, a missing or
+   extra delay / edge by one whole term (>= 1e-6 of any total the generator can produce), a stale state by one edge. *)
 Fixpoint vmag (r : Cost.vrate Q) : Q :=
   match r with
   | Cost.VZero => 0
